@@ -406,7 +406,7 @@ pub fn engine() -> ForestEngine {
     ForestEngine {
         cfg: ForestCfg { property: "C10", extra: Some(extra), shape, enumerate_every: 0, claim: Some(claim), fork_check: false },
         level: "exploration",
-        quick_runs: 10_000,
+        quick_runs: 25_000,
         thorough_runs: 500_000,
         rule: "Seeded histories on a shared Xot with a namespace-heavy mix: documents with arbitrary declaration layouts (parse and creation), elements/attributes added in new or existing namespaces, subtrees moved, wrapped or cloned away from the declarations they relied on, no-namespace elements under a default namespace, declarations added/removed through the map and node APIs, and create_missing_prefixes on documents, fragments, elements (repeatedly). The ahash seed stream, which decides which missing namespace becomes n0, n1, ..., is reseeded per run by the simulator. After every step every document/element root is serialised: the result must be an error or a text whose element and attribute names - resolved by an independent namespace resolver over the text - equal the tree's expanded names. After create_missing_prefixes on a document/fragment/element: Ok; to_string Ok; the text resolves to the tree's names and reparses to the same names, attributes and content; nothing but namespace nodes was added; every name of the tree that resolved through an in-scope binding before still resolves. Non-trivial/distinct as for C04.",
     }
